@@ -431,6 +431,7 @@ func first(a, _ []byte) []byte { return a }
 //@ func (*node4).deleteChild
 //@   requires n4 != nil && atype(n4) == typeid(node4) && Inv4(n4) && refIs(ref, n4, 0)
 //@   requires has4(n4, b) && n4.childrenLen >= 2
+//@   requires forall(i, 0, 4, implies(i < n4.childrenLen, n4.children[i].pointer != n4))
 //@   requires implies(n4.childrenLen == 2 && n4.children[survIdx(n4, b)].tag != 4, innerChildOK(n4, n4.children[survIdx(n4, b)], ref))
 //@   let sP = n4.children[survIdx(n4, b)].pointer
 //@   let sT = n4.children[survIdx(n4, b)].tag
@@ -445,3 +446,23 @@ func first(a, _ []byte) []byte { return a }
 //@   ensures[merge_path] implies(old(n4.childrenLen) == 2 && sT != 4, forall(k, 0, 10, implies(k < P + 1 + L, as(node, sP).prefix[k] == ite(k < P, old(n4.prefix[k]), ite(k == P, sB, old(as(node, sP).prefix[k - P - 1]))))))
 //@   ensures[merge_child] implies(old(n4.childrenLen) == 2 && sT != 4, sameObjExcept(sP, "B", "node.prefixLen") && sameBytes(sP, 0, 1024))
 //@   ensures[frame] implies(old(n4.childrenLen) > 2 || sT == 4, frame(n4, ref.obj)) && implies(old(n4.childrenLen) == 2 && sT != 4, frame(n4, ref.obj, sP)) && frameSlot(ref)
+
+//@ spec survP(r, b) = as(node4, r.pointer).children[survIdx(as(node4, r.pointer), b)].pointer
+//@ spec survT(r, b) = as(node4, r.pointer).children[survIdx(as(node4, r.pointer), b)].tag
+//@ spec isMerge(r) = r.tag == 0 && as(node4, r.pointer).childrenLen == 2
+
+//@ func (*nodeRef).deleteChild
+//@   requires typeOK(*ptr) && InvRef(*ptr) && slotOK(ptr)
+//@   requires lookP(*ptr, b) != nil
+//@   requires implies((*ptr).tag == 0, as(node4, (*ptr).pointer).childrenLen >= 2 && forall(i, 0, 4, implies(i < as(node4, (*ptr).pointer).childrenLen, as(node4, (*ptr).pointer).children[i].pointer != (*ptr).pointer)))
+//@   requires implies(isMerge(*ptr) && survT(*ptr, b) != 4, innerChildOK(as(node4, (*ptr).pointer), as(node4, (*ptr).pointer).children[survIdx(as(node4, (*ptr).pointer), b)], ptr))
+//@   let merge = isMerge(*ptr)
+//@   let sP = survP(*ptr, b)
+//@   let sT = survT(*ptr, b)
+//@   let n0 = (*ptr).pointer
+//@   ensures[view] implies(!merge, forallp(x, 0, 256, lookP(*ptr, x) == ite(x == b, nil, old(lookP(*ptr, x))) && lookT(*ptr, x) == ite(x == b, 0, old(lookT(*ptr, x)))))
+//@   ensures[inv] implies(!merge, typeOK(*ptr) && InvRef(*ptr))
+//@   ensures[hdr] implies(!merge, hdrSame((*ptr).pointer, n0))
+//@   ensures[replaced] implies(!merge, (*ptr).pointer == n0 || fresh((*ptr).pointer))
+//@   ensures[merge_link] implies(merge, (*ptr).pointer == sP && (*ptr).tag == sT)
+//@   ensures[frame] implies(!merge || sT == 4, frame(n0, ptr.obj, (*ptr).pointer)) && implies(merge && sT != 4, frame(n0, ptr.obj, sP)) && frameSlot(ptr)
